@@ -673,6 +673,16 @@ func cmdCheck(args []string) int {
 	if total.Runs == 0 {
 		fatal2("no runs executed")
 	}
+	// the real-kernel leg of C19 runs before anything is reported: trouble there is exit 2
+	var kernelExtra map[string]interface{}
+	var kviol []kViolation
+	if id == "C19" {
+		kb := tc.budgetSec / 3
+		if kb < 15 {
+			kb = 15
+		}
+		kernelExtra, kviol = runKernelLeg(seed, *tier, kb, W)
+	}
 	// ---- violations: dedupe by class, minimise, double replay
 	known := loadKnown()
 	exit := 0
@@ -770,14 +780,7 @@ func cmdCheck(args []string) int {
 		reported = append(reported, map[string]interface{}{"known": false, "clause": rf.Violation.Clause, "key": rf.Violation.Key, "replay": path, "detail": abbreviate(rf.Violation.Detail, 400)})
 		exit = 1
 	}
-	var kernelExtra map[string]interface{}
 	if id == "C19" {
-		kb := tc.budgetSec / 3
-		if kb < 15 {
-			kb = 15
-		}
-		kx, kviol := runKernelLeg(seed, *tier, kb, W)
-		kernelExtra = kx
 		for _, kv := range kviol {
 			c := class{"kernel:" + kv.Clause, kv.Key}
 			if seen[c] {
